@@ -180,4 +180,137 @@ Section Checks.
         destruct (setter_writes_sound ldq stq Hld Hst cfg _ _ _ _ _ _ _ Hsw b Hb) as [b' [Hr Hw]].
         exists b'. split; [exact Hr|exact Hw].
   Qed.
+
+  (* ================= C03: sizes ================= *)
+  Fixpoint find_type (ts:list typeinfo) (name src:string) : option typeinfo :=
+    match ts with
+    | [] => None
+    | t :: r => if String.eqb (ty_name t) name && String.eqb (ty_src t) src then Some t else find_type r name src
+    end.
+  Definition opt_is (o:option N) (n:N) : bool := match o with Some x => x =? n | None => false end.
+  Definition sizes_ok (types:list typeinfo) (s:sformat) : bool :=
+    match find_type types (sp_type s) (sp_src s) with
+    | Some t => (ty_sizeof t =? sp_hdr_len s) && opt_is (ty_payload_off t) (sp_hdr_len s) &&
+                opt_is (ty_len_value t) (sp_hdr_len s) && (sp_hdr_len s mod 4 =? 0)
+    | None => false
+    end.
+
+  (* ================= C04: initialisers ================= *)
+  (* effect of one step after the memset: (first bit, width, value) of the field it writes *)
+  Definition op_effect (u:unit_model) (hdr:N) (op:initop) : option (N * N * N) :=
+    match op with
+    | ICall callee args =>
+        match find_setter (u_setters u) callee with
+        | Some st =>
+            let params := 0 :: map (fun a => arg_value a [0]) args in
+            let vidx := List.length args in
+            match resolve_call (nw_set cfg) (fw_set cfg) (u_tables u) (s_call st) params with
+            | RDesc d =>
+                if setter_writes cfg (u_tables u) st params vidx (dfirst d) (dbits d) hdr
+                then Some (dfirst d, dbits d, nth vidx params 0) else None
+            | _ => None
+            end
+        | None => None
+        end
+    | _ => None
+    end.
+  Fixpoint track (u:unit_model) (hdr:N) (ops:list initop) (c:buf) : option buf :=
+    match ops with
+    | [] => Some c
+    | op :: r => match op_effect u hdr op with
+                 | Some (f, w, v) => track u hdr r (spec_insert c f w v)
+                 | None => None
+                 end
+    end.
+  Definition init_image (u:unit_model) (i:init) (hdr:N) : option buf :=
+    match i_ops i with
+    | IMemset v size :: rest =>
+        if (v =? 0) && (size =? hdr) && i_guarded i then track u hdr rest (repeat 0 (N.to_nat hdr)) else None
+    | _ => None
+    end.
+  Definition init_ok (us:list unit_model) (s:sformat) : bool :=
+    str_empty (sp_init s) ||
+    match fmt_unit us s with
+    | Some (u, _) =>
+        match find_init (u_inits u) (sp_init s) with
+        | Some i => match init_image u i (sp_hdr_len s), canonical_header s with
+                    | Some c, Some h => list_eqb c h
+                    | _, _ => false
+                    end
+        | None => false
+        end
+    | None => false
+    end.
+
+  (* b agrees with the image c on the header bits and with old on everything after the header *)
+  Definition agrees (b c old:buf) (hdr:N) : Prop :=
+    List.length b = List.length old /\
+    (forall i, i / 8 < hdr -> bit_at b i = bit_at c i) /\
+    (forall j, hdr <= j -> nthN b j = nthN old j).
+
+  Lemma op_effect_sound u hdr op f w v : op_effect u hdr op = Some (f, w, v) ->
+    forall b, hdr <= blen b ->
+      exists b', run_initop ldq stq cfg u op b [0] = Ok (Some b') /\ writes_field b b' f w hdr v.
+  Proof.
+    unfold op_effect. destruct op as [| |callee args]; try discriminate.
+    destruct (find_setter (u_setters u) callee) as [st|] eqn:Es; [|discriminate].
+    cbv zeta.
+    destruct (resolve_call _ _ _ (s_call st) _) as [| |d] eqn:Er; try discriminate.
+    destruct (setter_writes _ _ _ _ _ _ _ _) eqn:Ew; [|discriminate].
+    intros H b Hb. inversion H; subst; clear H.
+    cbn [run_initop]. rewrite Es.
+    apply (setter_writes_sound ldq stq Hld Hst cfg _ _ _ _ _ _ _ Ew b Hb).
+  Qed.
+
+  Lemma track_sound u hdr old : forall ops c c' b,
+    track u hdr ops c = Some c' -> blen c = hdr -> hdr <= blen old -> agrees b c old hdr ->
+    exists b', run_initops ldq stq cfg u ops b [0] = Ok (Some b') /\ agrees b' c' old hdr.
+  Proof.
+    induction ops as [|op r IH]; intros c c' b Ht Hc Hold Hag; cbn [track run_initops] in *.
+    - inversion Ht; subst. exists b. split; [reflexivity|exact Hag].
+    - destruct (op_effect u hdr op) as [[[f w] v]|] eqn:Eo; [|discriminate].
+      destruct Hag as [HL [Hbits Htail]].
+      assert (Hb : hdr <= blen b) by (unfold blen in *; rewrite HL; exact Hold).
+      destruct (op_effect_sound u hdr op f w v Eo b Hb) as [b1 [Hr [HL1 [Hb1 Ht1]]]].
+      rewrite Hr.
+      apply (IH (spec_insert c f w v) c' b1 Ht).
+      + unfold blen. rewrite length_spec_insert. exact Hc.
+      + exact Hold.
+      + split; [rewrite HL1; exact HL|]. split.
+        * intros i Hi. rewrite Hb1, !bit_at_spec_insert.
+          replace (i / 8 <? blen b) with true by (symmetry; apply N.ltb_lt; lia).
+          replace (i / 8 <? blen c) with true by (symmetry; apply N.ltb_lt; lia).
+          rewrite (Hbits i Hi). reflexivity.
+        * intros j Hj. rewrite (Ht1 j Hj). apply Htail. exact Hj.
+  Qed.
+
+  Lemma nthN_repeat0 n j : nthN (repeat 0 n) j = 0.
+  Proof. unfold nthN. apply nth_repeat. Qed.
+
+  Theorem init_image_sound u i hdr c : init_image u i hdr = Some c ->
+    run_init ldq stq cfg u i None = Ok None /\
+    forall old, hdr <= blen old ->
+      exists b', run_init ldq stq cfg u i (Some old) = Ok (Some b') /\ agrees b' c old hdr.
+  Proof.
+    unfold init_image, run_init. destruct (i_ops i) as [|[v size| |] rest]; try discriminate.
+    destruct ((v =? 0) && (size =? hdr) && i_guarded i) eqn:E; [|discriminate].
+    apply andb_true_iff in E. destruct E as [E Hg]. apply andb_true_iff in E. destruct E as [Ev Es].
+    apply N.eqb_eq in Ev, Es. subst v size. rewrite Hg. intros Ht. split; [reflexivity|].
+    intros old Hold. cbn [run_initops run_initop]. unfold do_memset.
+    replace (hdr <=? blen old) with true by (symmetry; apply N.leb_le; exact Hold).
+    rewrite N.mod_0_l by lia.
+    apply (track_sound u hdr old rest (repeat 0 (N.to_nat hdr)) c _ Ht).
+    - unfold blen. rewrite repeat_length. lia.
+    - exact Hold.
+    - assert (Hlen : 0 + N.of_nat (List.length (repeat 0 (N.to_nat hdr))) <= blen old) by (rewrite repeat_length; lia).
+      split; [apply length_upd|]. split.
+      + intros k Hk. unfold bit_at, byte_at. rewrite nthN_upd by exact Hlen.
+        rewrite repeat_length.
+        replace ((0 <=? k / 8) && (k / 8 <? 0 + N.of_nat (N.to_nat hdr))) with true
+          by (symmetry; apply andb_true_iff; split; [apply N.leb_le|apply N.ltb_lt]; lia).
+        rewrite !nthN_repeat0. reflexivity.
+      + intros j Hj. rewrite nthN_upd by exact Hlen. rewrite repeat_length.
+        replace ((0 <=? j) && (j <? 0 + N.of_nat (N.to_nat hdr))) with false; [reflexivity|].
+        symmetry. apply andb_false_iff. right. apply N.ltb_ge. lia.
+  Qed.
 End Checks.
